@@ -38,7 +38,7 @@ BUDGET = {
 REQUIRED_PROBES = ["get", "post", "patch_or_put", "delete", "body_star", "body_field", "no_body", "additional_binding_used",
                    "nested_path_variable", "two_path_variables", "required_default_in_query", "numeric_enums", "enum_names",
                    "http_fault_retried", "http_fault_surfaced", "streamed_reply_short_reads", "repeat_call_same_rpc",
-                   "unbound_method_refused", "no_binding_matches", "reply_decoded", "query_nested_or_repeated"]
+                   "unbound_method_refused", "no_binding_matches", "reply_decoded", "query_nested_or_repeated", "threaded_rest_callers"]
 ASSUMPTIONS = ["present-but-empty singular message fields are not generated (HTTP query strings cannot express them)",
                "path-variable values are drawn without '%', '?', '#' (URL quoting of those is requests'/api-core's concern)",
                "fields that http.proto forbids in the query (repeated messages, maps) are moved into the body by the "
@@ -377,6 +377,19 @@ def gen_scenarios(spec, rng, n):
             ops.append(gen_op(spec, rng, codec, fs, s, m, f"o{j}"))
         engine.add_in_place_edits(rng, [{"ops": ops}])
         sc = {"client": "rest", "actors": [{"start": 0.0, "ops": ops}], "jitter_default": 0.0}
+        if len(ops) >= 2 and rng.random() < 0.25:
+            # REAL caller threads sharing the REST client (one AuthorizedSession, one set of stubs)
+            nact = min(len(ops), rng.choice([2, 2, 3]))
+            acts = [{"start": 0.0, "ops": []} for _ in range(nact)]
+            for j, op in enumerate(ops):
+                op.pop("mutate_of", None)              # (in-place edits are a single-caller behaviour)
+                op["server"] = [dict(o, lat=rng.choice([0.0, 0.002, 0.01])) if "lat" not in o else o for o in op.get("server") or []]
+                acts[j % nact]["ops"].append(op)
+            sc["actors"] = acts
+            sc["threads"] = True
+            sc["sched_seed"] = rng.randrange(2 ** 32)
+            # (jitter stays 0: this oracle does not model retry deadlines - C09 does - so backoff must take no time;
+            #  the small reply latencies are what lets the threads overlap)
         if rng.random() < 0.4:
             # the application has REFRESHABLE credentials: an HTTP 401 (expired token) makes google-auth refresh them
             # and re-send the very same request below api-core's retry layer; the re-sent request is judged like any other
@@ -509,6 +522,8 @@ def judge(spec, scenario, history):
     ops = oracle.all_ops(scenario)
     by = oracle.events_by_op(history, ops)
     probes = {}
+    if scenario.get("threads"):
+        probes["threaded_rest_callers"] = 1
     seen_methods = set()
     for a in scenario["actors"]:
         for op in a["ops"]:
